@@ -127,7 +127,7 @@ Section MovingLib.
   }.
 
   Lemma di_wf d : DbInv d -> wf_store (store d).
-  Proof. intros H. apply (wf_of_Uw U U_id U_up); [apply (di_nodup d H) | apply (di_inU d H)]. Qed.
+  Proof. intros H. apply (wf_of_U U U_id U_up); [apply (di_nodup d H) | apply (di_inU d H)]. Qed.
 
   Lemma di_lid d : DbInv d -> ri (libref d) <> 0.
   Proof. intros H. apply (di_coh d H). Qed.
@@ -270,7 +270,7 @@ Section MovingLib.
     unfold fk_step. destruct (N.eqb_spec (bid b) (bparent b)); [contradiction|].
     unfold dropped in Hdr. unfold incl_first in Hni. rewrite Hdr, Hni.
     unfold sw_of in Hsw. rewrite Hsw.
-    rewrite (add_link_new_w U U_id _ _ Hb Hf).
+    rewrite (add_link_new U U_id _ _ Hb Hf).
     assert (Hhl : has_lib (new_db (db s) b) = true).
     { apply has_lib_true. cbn [new_db libref]. apply (di_lid _ Hd). }
     rewrite Hhl. cbn [with_db db].
@@ -863,7 +863,7 @@ Section MovingLib.
     unfold fk_step. destruct (N.eqb_spec (bid b) (bparent b)); [contradiction|].
     unfold dropped in Hd. rewrite Els in *. rewrite Hd, Hci, Hflast.
     replace (bid b =? ri r0) with true by (symmetry; apply N.eqb_eq; exact Hid). cbn [andb].
-    rewrite (add_link_new_w U U_id _ _ Hb Hf). cbn [fst].
+    rewrite (add_link_new U U_id _ _ Hb Hf). cbn [fst].
     pose proof (dbinv_add _ _ Hdb Hb Hf) as Hdb1.
     set (s1 := with_db s (new_db (db s) b)).
     unfold process_initial_inclusive. rewrite Hnew, (call_ok cfg Hnofail). cbv beta iota zeta.
@@ -911,7 +911,7 @@ Section MovingLib.
   Proof.
     intros HI Hb.
     destruct (dropped s b) eqn:Hd.
-    { rewrite (fk_step_dropped_w U cfg U_id s b Hb Hd). apply stepout_quiet; auto. right. exact Hd. }
+    { rewrite (fk_step_dropped U cfg U_id s b Hb Hd). apply stepout_quiet; auto. right. exact Hd. }
     destruct (incl_first s b) eqn:Hni.
     { apply step_root; assumption. }
     pose proof HI as [Hdb Hfin Hflast Hh]. pose proof Hdb as [Hnd HU Hcoh Hnum Hextra Hlc Hrt].
